@@ -4,7 +4,8 @@
    Events (one scenario = hdr followed by its events):
      hdr    {id, kind "fetch" | "load", sc (the GEN record of AssetMirror.tla),
              fetch: mpd (file name), url (download URL), refs (relative paths the MPD references - by the driver's construction of
-                    the asset), onemore (the paths one segment number beyond the last, per $Number$+@duration Representation)}
+                    the asset), onemore (the paths one segment number beyond the last, per $Number$+@duration Representation),
+                    tail (discriminator for known findings only, not read here)}
      run    {id, seq, force, healthy (no fault planned in this run), origin [[path, digest]] (the origin's files at this run)}
      get    {id, seq, reqs [[path, status, fault, complete]]}      the origin's request log of the run (paths relative to the MPD's directory)
      file   {id, seq, files [[path, digest]]}                      the output directory after the run
@@ -12,7 +13,8 @@
              level >= WARN contains), mpdlist [[name, originURI]]}
      start  {id, err, panic}                                       SetupServer on the scenario's tree
      load   {id, role "companion" | "variant" | "second" | "mirror", asset, mpd, d (AssetMirrorOps!Accepted's record + vts, durs, pay:
-             ground truth by construction), listed, reflog, obs [loop, mpdst, vdur, initst, initts, nums, st, dig, sdur, dt, aud]}
+             ground truth by construction), listed, reflog (a WARN+ record of the start names the asset directory or the MPD path),
+             logs (those records, for known-finding matching only), obs [loop, mpdst, vdur, initst, initts, nums, st, dig, sdur, dt, aud]}
      vod    {id, path, exists, st, fdig, bdig}
    Clauses: X05.nocrash .all .ident .only .report .skip .once .force .mpdlist (at result), X05.survive (start),
             X05.accept .refuse .meta .logged (load), X05.vod.                                                                     *)
@@ -93,7 +95,7 @@ Load == /\ ev.ev = "load" /\ ev.id = H.id
                    /\ (IF ev.listed /\ ListNs(d) # {}
                        THEN LET b == BestMetaBad(d, ev.obs) IN Clause("X05.meta", b = {}, [role |-> ev.role, aspects |-> b, loop |-> ev.obs.loop, mpdst |-> ev.obs.mpdst])
                        ELSE TRUE)
-                   /\ Clause("X05.logged", ev.listed \/ d.kind = "none" \/ ev.reflog, [role |-> ev.role, why |-> "refused without a log record naming it"])
+                   /\ Clause("X05.logged", ev.listed \/ (d.kind = "none" /\ ~ShapeRefused(d)) \/ ev.reflog, [role |-> ev.role, why |-> "refused without a log record naming it"])
         /\ UNCHANGED <<h, rl, gl, fl, prev, good, up>>
 
 Vod == /\ ev.ev = "vod" /\ ev.id = H.id
